@@ -104,6 +104,26 @@ fn hostile_tape(sc: &Scenario, rng: &mut Rng) -> (Tape, Vec<&'static str>) {
     if sl.is_empty() {
         return (t, kinds);
     }
+    // two point inputs that sit on a pole of the addition law with respect to each other
+    // (d x1 x2 y1 y2 = +-1: the host-side sum or difference has a zero denominator)
+    let point_slots: Vec<usize> = (0..sl.len().min(t.0.len())).filter(|j| matches!(sl[*j], Slot::P)).collect();
+    if point_slots.len() >= 2 && rng.chance(1, 3) {
+        let a = point_slots[rng.usize(point_slots.len())];
+        let mut b = point_slots[rng.usize(point_slots.len())];
+        if a == b {
+            b = *point_slots.iter().find(|j| **j != a).unwrap();
+        }
+        let (x1, y1, x2) = (rng.scalar(), rng.scalar(), rng.scalar());
+        if let Some(inv) = Option::<Sc>::from((EDWARDS_D * x1 * y1 * x2).invert()) {
+            let y2 = if rng.chance(1, 2) { inv } else { -inv };
+            t.0[a] = TapeVal::P(JubJubExtended::from(JubJubAffine::from_raw_unchecked(x1, y1)));
+            t.0[b] = TapeVal::P(JubJubExtended::from(JubJubAffine::from_raw_unchecked(x2, y2)));
+            kinds.push("tape.point_pole_pair");
+            if rng.chance(1, 2) {
+                return (t, kinds);
+            }
+        }
+    }
     let n_edits = 1 + rng.usize(3);
     for _ in 0..n_edits {
         let j = rng.usize(sl.len());
